@@ -1,7 +1,6 @@
 package binder
 
 import (
-	"github.com/gofiber/utils/v2"
 	"github.com/valyala/fasthttp"
 )
 
@@ -24,8 +23,9 @@ func (b *HeaderBinding) Bind(req *fasthttp.Request, out any) error {
 			return
 		}
 
-		k := utils.UnsafeString(key)
-		v := utils.UnsafeString(val)
+		// copy: bound fields and map entries must not alias the recycled request buffers
+		k := string(key)
+		v := string(val)
 		err = formatBindData(out, data, k, v, b.EnableSplitting, false)
 	})
 
